@@ -74,6 +74,7 @@ let parse_dop (s : string) : dop =
   | '+' -> DIns rest
   | '-' -> DRem rest
   | '*' -> DDup rest
+  | '=' -> DInsZc rest
   | _ -> failwith "dop"
 
 let run (f : string list) : string =
